@@ -396,5 +396,43 @@ example : ∃ i : DiscIn, i.conn = false ∧ (i.serverPid = true → ∃ k, k < 
     (∀ r, i.dirOpenOk r = true) :=
   ⟨{ conn := false, killEsrch := fun k => k == 2, unlinkOk := fun _ => true }, rfl, fun _ => ⟨2, by omega, rfl⟩, fun _ => rfl⟩
 
+/-- client_disconnect_probes_first: `qb_ipcc_disconnect` on a connection whose server is dead (POLLHUP
+    visible on the setup socket) and reaped within the four `kill(pid, 0)` probes reaches the force-close
+    (`unlinkat`, else truncate) of the data and header file of all three rings WHATEVER `c->is_connected`
+    was on entry — in particular when no earlier call noticed the death (the server died while the client
+    was idle and `qb_ipcc_disconnect` is the client's next call): the zero-timeout probe at the start of
+    `qb_ipcc_disconnect` clears the flag `qb_ipcc_shm_disconnect` decides on -/
+theorem client_disconnect_probes_first (c : Cl) (env : DiscIn) (hdead : c.deathAt ≤ c.now)
+    (hreaped : env.serverPid = true → ∃ k, k < 4 ∧ env.killEsrch k = true)
+    (hdir : ∀ r, env.dirOpenOk r = true) :
+    (ipccDisconnectFiles true c env).map (·.1) =
+      [.data .req, .hdr .req, .data .resp, .hdr .resp, .data .evt, .hdr .evt] ∧
+    (∀ f fate, (f, fate) ∈ ipccDisconnectFiles true c env →
+      (env.unlinkOk f = true → fate = .removed) ∧
+      (env.unlinkOk f = false → fate = .truncated (env.truncOk f))) := by
+  have hc : (disconnectProbe c).conn = false := by
+    simp [disconnectProbe, Cl.hup, hdead]
+  have := client_disconnect_removes_files { env with conn := (disconnectProbe c).conn } hc hreaped hdir
+  simpa [ipccDisconnectFiles] using this
+
+/-- the probe is needed: without it a client that has not noticed the death (`is_connected` still true)
+    only unmaps the rings and all six files of the dead, reaped server stay; with it they are removed -/
+theorem client_disconnect_without_probe_leaves_files :
+    (ipccDisconnectFiles false { conn := true, now := 5, deathAt := 3 }
+        { conn := true, killEsrch := fun _ => true, unlinkOk := fun _ => true }).map (·.2) =
+      [.left, .left, .left, .left, .left, .left] ∧
+    (ipccDisconnectFiles true { conn := true, now := 5, deathAt := 3 }
+        { conn := true, killEsrch := fun _ => true, unlinkOk := fun _ => true }).map (·.2) =
+      [.removed, .removed, .removed, .removed, .removed, .removed] := by decide
+
+/-- the probe does nothing to a connection whose server is alive -/
+theorem disconnectProbe_live (c : Cl) (h : c.now < c.deathAt) : disconnectProbe c = c := by
+  simp [disconnectProbe, Cl.hup, Nat.not_le.mpr h]
+
+example : ∃ (c : Cl) (env : DiscIn), c.conn = true ∧ c.deathAt ≤ c.now ∧
+    (env.serverPid = true → ∃ k, k < 4 ∧ env.killEsrch k = true) ∧ (∀ r, env.dirOpenOk r = true) :=
+  ⟨{ conn := true, now := 5, deathAt := 3 }, { conn := true, killEsrch := fun k => k == 3, unlinkOk := fun _ => false },
+   rfl, by decide, fun _ => ⟨3, by omega, rfl⟩, fun _ => rfl⟩
+
 end Client
 end QbVerif.IpcLife
